@@ -145,7 +145,10 @@ Step(st, l, n) ==
   ELSE IF new /\ ~MetaSupported(l.mt) THEN Reject(l, CUnsupportedVer, NSupported, {}, st)
   \* method switch
   ELSE IF l.m \in Removed THEN
-    (IF new THEN Reject(l, CMethodNotFound, 0, {}, st) ELSE Receive(st, l, n))
+    (IF new THEN Reject(l, CMethodNotFound, 0, {}, st)
+     \* of the methods sharing this case only the lifecycle ones are served before initialization
+     ELSE IF st.ip = "nil" /\ l.m \notin {MInit, MPing, MInited} THEN Reject(l, 0, 0, {}, st)
+     ELSE Receive(st, l, n))
   ELSE IF l.m = MDiscover THEN
     (IF ~new THEN Reject(l, CMethodNotFound, 0, {}, st) ELSE Receive(st, l, n))
   ELSE IF st.ip = "nil" /\ ~new THEN Reject(l, 0, 0, {}, st)                        \* invalid during initialization
@@ -252,6 +255,7 @@ OutsideLegacyScope(mu, l, o) ==
 \* The documented departure of the code-shaped Step from the property (DESIGN.md section 9, lead 4):
 \* these methods sit in the ungated `case` of the method switch and are served on a fresh session.
 \* It is a lead of the model; it becomes a finding only when the real code reproduces it.
-UngatedLead(mu, l) ==
-  LegacySession(mu) /\ ~mu.acc /\ LegacyMsg(l) /\ l.m \in (UngatedCalls \cup {MRoots})
+\* (historical lead: logging/setLevel, resources/subscribe, resources/unsubscribe and roots/list_changed used to be
+\* served before initialize; repaired in /repo, see KNOWN_FINDINGS.txt - the model has no departure left)
+UngatedLead(mu, l) == FALSE
 =============================================================================
